@@ -49,6 +49,7 @@ type opCtx struct {
 	obs       []cbObs // raw observations of the C17 callbacks
 	lockDepth int     // locks held by library code of this operation (instrumented build)
 	async     bool    // the library ran part of this operation in goroutines of its own
+	parent    *opCtx  // the context this one is merged into (goroutines the library started)
 }
 
 func newOpCtx(failAt int) *opCtx {
@@ -198,8 +199,11 @@ func (r *runCtx) setTaskOp(id int, o *opCtx) {
 	r.taskOps[id] = o
 }
 
-// adoptHelper gives a goroutine the library started the operation context of the task that
-// started it.
+// adoptHelper gives a goroutine the library started an operation context of its own, linked to
+// the context of the task that started it: two goroutines never write the same context (the
+// hand-offs between them are hidden from the race detector, so shared bookkeeping of the harness
+// would be reported as a race of the library). What the goroutine recorded is merged into the
+// parent's context when it ends.
 //
 //go:norace
 func (r *runCtx) adoptHelper(parent, child *task) {
@@ -207,10 +211,42 @@ func (r *runCtx) adoptHelper(parent, child *task) {
 	if parent.id < len(r.taskOps) {
 		oc = r.taskOps[parent.id]
 	}
-	if oc != nil {
-		oc.async = true
+	if oc == nil {
+		r.setTaskOp(child.id, nil)
+		return
 	}
-	r.setTaskOp(child.id, oc)
+	oc.async = true
+	co := newOpCtx(0)
+	co.parent, co.async = oc, true
+	co.nowSet, co.now = oc.nowSet, oc.now
+	r.setTaskOp(child.id, co)
+}
+
+// helperDone merges what a library goroutine recorded into the context of its parent.
+//
+//go:norace
+func (r *runCtx) helperDone(t *task) {
+	if t.id >= len(r.taskOps) {
+		return
+	}
+	co := r.taskOps[t.id]
+	if co == nil || co.parent == nil {
+		return
+	}
+	p := co.parent
+	p.nodes += co.nodes
+	p.cbCalls += co.cbCalls
+	p.ticks += co.ticks
+	p.probes = append(p.probes, co.probes...)
+	p.obs = append(p.obs, co.obs...)
+	p.nowDiffer = p.nowDiffer || co.nowDiffer
+	if co.nowSet && p.nowSet && (!co.now.Equal(p.now) || co.now.Location() != p.now.Location()) {
+		p.nowDiffer = true
+	}
+	if co.failFired {
+		p.failFired = true
+	}
+	co.parent = nil
 }
 
 // Hooks of the instrumented build for goroutines and blocking operations of the library.
@@ -269,7 +305,7 @@ func (r *runCtx) solo(oc *opCtx, f func()) error {
 	}
 	sc := newSched(nil, 0, 1<<30)
 	sc.canonical, sc.async = true, true
-	sc.newTaskOp = r.adoptHelper
+	sc.newTaskOp, sc.taskEnded = r.adoptHelper, r.helperDone
 	savedSc, savedOps := r.sc, r.taskOps
 	r.sc, r.taskOps = sc, []*opCtx{oc}
 	defer func() { r.sc, r.taskOps = savedSc, savedOps }()
@@ -310,7 +346,7 @@ var abandonedInRun int
 
 // attach / detach put a scheduler in charge of the run's client tasks.
 func (r *runCtx) attach(sc *sched) {
-	sc.async, sc.newTaskOp = asyncBuild(), r.adoptHelper
+	sc.async, sc.newTaskOp, sc.taskEnded = asyncBuild(), r.adoptHelper, r.helperDone
 	r.sc = sc
 }
 
